@@ -274,6 +274,91 @@ func roundTrips(rng *rand.Rand, w *world) {
 	}
 }
 
+// hexSweep: hex export / import (GetHexString -> SetHexString) of secret keys and ids for every number
+// of hex digits 1..64 (the export writes no leading zero digit: odd digit counts, zero top nibbles), and
+// of small ids.
+func hexSweep(rng *rand.Rand) {
+	ints := cryptoutil.Ints
+	one := big.NewInt(1)
+	for digits := 1; digits <= 64; digits++ {
+		// a random value with exactly this many hex digits
+		lo := new(big.Int).Lsh(one, uint(4*(digits-1)))
+		v := new(big.Int).Rand(rng, lo.Mul(lo, big.NewInt(15)))
+		v.Add(v, new(big.Int).Lsh(one, uint(4*(digits-1))))
+		if v.Cmp(bn.Order) >= 0 {
+			v.Sub(v, bn.Order)
+		}
+		sk := *groupsig.NewSeckeyFromBigInt(new(big.Int).Set(v))
+		val := pad32(sk.GetBigInt().Bytes())
+		var s2 groupsig.Seckey
+		s2.SetHexString(sk.GetHexString())
+		emit("RoundTrip", map[string]interface{}{"type": "seckey", "via": "hex", "digits": len(sk.GetHexString()) - 2, "value": ints(val),
+			"serialized": ints([]byte(sk.GetHexString())), "parsed": ints(pad32(s2.GetBigInt().Bytes())), "isEqual": s2.IsEqual(sk)})
+		var id groupsig.ID
+		id.SetBigInt(v)
+		var id2 groupsig.ID
+		id2.SetHexString("0x" + v.Text(16)) // the unpadded form other tools and logs use for ids
+		emit("RoundTrip", map[string]interface{}{"type": "id", "via": "hexUnpadded", "digits": digits, "value": ints(pad32(v.Bytes())),
+			"serialized": ints([]byte("0x" + v.Text(16))), "parsed": ints(pad32(id2.GetBigInt().Bytes())), "isEqual": id2.IsEqual(id)})
+		var id3 groupsig.ID
+		id3.SetHexString(id.GetHexString())
+		emit("RoundTrip", map[string]interface{}{"type": "id", "via": "hex", "digits": digits, "value": ints(pad32(v.Bytes())),
+			"serialized": ints([]byte(id.GetHexString())), "parsed": ints(pad32(id3.GetBigInt().Bytes())), "isEqual": id3.IsEqual(id)})
+	}
+	for _, n := range []int64{1, 2, 9, 15, 16, 17, 255, 256, 257, 1000, 4095, 4096} {
+		v := big.NewInt(n)
+		var id, id2 groupsig.ID
+		id.SetBigInt(v)
+		id2.SetHexString("0x" + v.Text(16))
+		emit("RoundTrip", map[string]interface{}{"type": "id", "via": "hexUnpadded", "digits": len(v.Text(16)), "value": ints(pad32(v.Bytes())),
+			"serialized": ints([]byte("0x" + v.Text(16))), "parsed": ints(pad32(id2.GetBigInt().Bytes())), "isEqual": id2.IsEqual(id)})
+		sk := *groupsig.NewSeckeyFromBigInt(new(big.Int).Set(v))
+		var s2 groupsig.Seckey
+		s2.SetHexString(sk.GetHexString())
+		emit("RoundTrip", map[string]interface{}{"type": "seckey", "via": "hex", "digits": len(v.Text(16)), "value": ints(pad32(v.Bytes())),
+			"serialized": ints([]byte(sk.GetHexString())), "parsed": ints(pad32(s2.GetBigInt().Bytes())), "isEqual": s2.IsEqual(sk)})
+	}
+}
+
+// freshG2InPair: goroutines pair against ONE G2 point that comes straight from arithmetic (the first
+// thing that touches it are the concurrent pairings): every pairing value is the one obtained alone,
+// and the point still encodes to what an independently computed copy encodes to.
+func freshG2InPair(rng *rand.Rand, goroutines, rounds int) {
+	wrong, corrupted := 0, 0
+	for r := 0; r < rounds; r++ {
+		k := new(big.Int).Rand(rng, bn.Order)
+		q := new(bn.G2).ScalarBaseMult(k)
+		refQ := new(bn.G2).ScalarBaseMult(k)
+		p := new(bn.G1).ScalarBaseMult(big.NewInt(int64(7 + r)))
+		pa := new(bn.G1)
+		pa.Unmarshal(p.Marshal())
+		ref := bn.Pair(pa, refQ).Marshal()
+		bad := make([]int, goroutines)
+		var wg sync.WaitGroup
+		start := make(chan struct{})
+		for g := 0; g < goroutines; g++ {
+			wg.Add(1)
+			go func(g int) {
+				defer wg.Done()
+				<-start
+				if !bytes.Equal(bn.Pair(pa, q).Marshal(), ref) {
+					bad[g]++
+				}
+			}(g)
+		}
+		close(start)
+		wg.Wait()
+		for _, b := range bad {
+			wrong += b
+		}
+		if !bytes.Equal(q.Marshal(), refQ.Marshal()) {
+			corrupted++
+		}
+	}
+	emit("SharedObject", map[string]interface{}{"kind": "pubkeyPointFreshInPair", "goroutines": goroutines, "rounds": rounds,
+		"verifyFailures": wrong, "objectsCorrupted": corrupted})
+}
+
 func le32(x *big.Int) []int {
 	b := pad32(x.Bytes())
 	out := make([]int, 32)
@@ -765,6 +850,7 @@ func main() {
 		}
 		if *extras && wi == 0 {
 			roundTrips(rng, w)
+			hexSweep(rng)
 			pairings(rng, *nBig)
 		}
 	}
@@ -792,6 +878,7 @@ func main() {
 	if *conc > 0 {
 		concurrency(rng, 8, *conc)
 		sharedObjects(rng, 6, *conc)
+		freshG2InPair(rng, 6, *conc)
 		if *extras {
 			parseLeftovers(rng, newWorld(rng))
 		}
